@@ -208,6 +208,25 @@ func runC13(o Opts) {
 					selfRecs = append(selfRecs, st)
 				}
 			}
+		case "fstrace":
+			ntrace++
+			var old []byte
+			if in.Fault == "old" {
+				old = c13ChildDoc(3)
+			}
+			rec := c13FsTrace(workdir, ntrace, old, 7)
+			rec.Input = in
+			rec.Corpus = corpus
+			out.Emit(rec)
+			if corpus == "" && o.Replay == "" && rec.Coq != "" && nself["fstrace"] == 0 {
+				// self-test: the same trace claimed to have written another document
+				nself["fstrace"]++
+				st := rec
+				st.Coq = strings.Replace(rec.Coq, coqBytes(c13ChildDoc(7)), coqBytes(c13ChildDoc(8)), 1)
+				st.SelfTest, st.Obs, st.Direct = true, nil, nil
+				st.SelfOf = out.n - 1
+				selfRecs = append(selfRecs, st)
+			}
 		case "trace", "inject":
 			ntrace++
 			for _, rec := range c13RunTrace(in, workdir, ntrace) {
@@ -277,6 +296,9 @@ func runC13(o Opts) {
 
 	// (d) the file cache from outside
 	emit(c13Input{Kind: "trace"}, nil, "")
+	// the same write judged by the file-system MODEL of C04 (real bytes): replacing an old document, and creating
+	emit(c13Input{Kind: "fstrace", Fault: "old"}, nil, "")
+	emit(c13Input{Kind: "fstrace", Fault: "absent"}, nil, "")
 	for _, sc := range []string{"newfstatat", "openat", "write", "fchmod", "fsync", "close", "renameat"} {
 		for _, f := range []string{"kill", "eio"} {
 			emit(c13Input{Kind: "inject", Syscall: sc, Fault: f}, nil, "")
